@@ -183,6 +183,10 @@ def check_property(prop, cs, args, seed, lock, write_lock=False):
                 extra["failures"].append({"name": "%s/extra-check-crash" % c.name, "detail": traceback.format_exc(), "crash": True})
 
     groups = sorted({ob["group"] for ob in obligations})
+    by_group_owner = {}
+    cgroup_of = {c.name: c.group for c in mine}
+    for ob in obligations:
+        by_group_owner[ob["group"]] = cgroup_of.get(ob["contract"], ob["contract"])
     discharged = [ob for ob in obligations if ob.get("status") == "discharged"]
     failed = [ob for ob in obligations if ob.get("status") != "discharged"]
     n_err = [ob for ob in obligations if ob.get("status") == "error"]
@@ -198,19 +202,29 @@ def check_property(prop, cs, args, seed, lock, write_lock=False):
     if n_err:
         rc = max(rc, 3)
         messages.append("solver errors: %d" % len(n_err))
-    # ---- vacuity guard
+    # ---- vacuity guard: per contract group, the number of obligation groups generated
+    # must not fall below the committed lock (80% for the shape-enumerated groups)
+    gcount = {}
+    cgroup = {c.name: c.group for c in mine}
+    for gname in groups:
+        cname = gname.split("[", 1)[0] if not gname.startswith("gen[") else None
+    for ob_group in groups:
+        owner = by_group_owner.get(ob_group)
+        gcount[owner] = gcount.get(owner, 0) + 1
     if write_lock:
-        lock[prop] = groups
+        lock[prop] = gcount
     else:
-        want = set(lock.get(prop, []))
+        want = lock.get(prop, {})
         if not args.only:
-            missing = sorted(want - set(groups))
             if not obligations and not extra["tables"] and not extra["bounded"]:
                 messages.append("VACUOUS: zero obligations generated")
                 rc = max(rc, 3)
-            if missing and not structural:
-                messages.append("obligation groups in the lock but not generated (%d), e.g. %s" % (len(missing), missing[:3]))
-                rc = max(rc, 3)
+            if not structural:
+                for gname, cnt in sorted(want.items()):
+                    have = gcount.get(gname, 0)
+                    if have < cnt and (cnt < 50 or have < 0.8 * cnt):
+                        messages.append("obligation groups of %s: %d generated, lock has %d" % (gname, have, cnt))
+                        rc = max(rc, 3)
     # ---- violations
     findings, fixed = read_known()
     violations = []
@@ -219,8 +233,9 @@ def check_property(prop, cs, args, seed, lock, write_lock=False):
     for ob in failed:
         if ob.get("status") == "error":
             continue
-        fail_by_contract.setdefault(ob["contract"], []).append(ob)
-    for cname, fl in sorted(fail_by_contract.items()):
+        fail_by_contract.setdefault(cgroup_of.get(ob["contract"], ob["contract"]), []).append(ob)
+    for gname_, fl in sorted(fail_by_contract.items()):
+        cname = fl[0]["contract"]
         c = cs[cname]
         hints = [f.get("model") for f in fl if f.get("model")][:3]
         path, found, detail = native_replay(prop, c, fl, os.path.join(HERE, "replay", prop), hints)
@@ -298,8 +313,9 @@ def check_property(prop, cs, args, seed, lock, write_lock=False):
             "obligation_groups": len(groups),
             "backends": backends,
             "solver_seconds": round(sum(ob.get("seconds", 0) for ob in obligations), 3),
-            "functions_under_contract": functions,
-            "stated": {c.name: c.stated for c in mine},
+            "functions_under_contract_count": len(functions),
+            "functions_under_contract": functions if len(functions) <= 60 else functions[:40] + [{"note": "%d more contract-modes omitted from this listing" % (len(functions) - 40)}],
+            "stated": {c.group: c.stated for c in mine if c.stated},
             "undischarged": [{"name": ob["name"], "status": ob.get("status"), "reason": ob.get("reason"), "note": ob.get("note")} for ob in failed][:50],
             "slowest": sorted([{"name": ob["name"], "seconds": ob.get("seconds", 0), "backend": ob.get("backend"), "attempts": ob.get("attempts")} for ob in obligations], key=lambda d: -d["seconds"])[:8],
             "finite_tables": extra["tables"],
